@@ -114,13 +114,19 @@ class Baton(object):
             self.turn = None
             self.cv.notify_all()
 
-    def yield_point(self, label):
-        """Called from service code (through a wrapper)."""
+    def yield_point(self, label, in_tx=False):
+        """Called from service code (through a wrapper).
+
+        in_tx=True marks a point that may park a thread inside an open
+        transaction; only harnesses that replaced tx_lock by NoLock and
+        place such points after a read-only prefix of the transaction use
+        it (see NoLock)."""
         w = self.current
         if w is None or threading.current_thread() is not w.thread:
             return
         from mv import sim
-        if sim._mods['sa_base']._get_thread_local_session() is not None:
+        if not in_tx and \
+                sim._mods['sa_base']._get_thread_local_session() is not None:
             return    # never park inside a transaction
         w.at = label
         self.log.append((w.name, label))
@@ -144,3 +150,27 @@ def wrap_method(baton, obj, name, label=None):
     wrapper._mv_orig = orig
     setattr(obj, name, wrapper)
     return orig
+
+
+class NoLock(object):
+    """Stand-in for mistral.db.sqlalchemy.base.tx_lock (the process-wide
+    lock that serialises SQLite transactions).  The baton already lets only
+    one thread run at a time; without the lock a thread may be parked
+    *inside* a transaction, after statements that only read.  All sessions
+    share the single SQLite connection, so what the parked transaction then
+    sees when it continues is the latest committed state: the statement-level
+    behaviour of UPDATE/DELETE ... WHERE on a server database (current
+    read).  A parked transaction must not have written anything yet: another
+    session's commit would publish it."""
+
+    def acquire(self, *a, **kw):
+        return True
+
+    def release(self):
+        pass
+
+    def __enter__(self):
+        return self
+
+    def __exit__(self, *a):
+        return False
